@@ -3,7 +3,7 @@ from engine.driver import poly as P
 from engine.driver.core import Ob, eq, eqs
 from engine.driver.encode import Constraint
 from spec import catalogue as cat
-from spec.treeutil import LA, cleared, is_coord
+from spec.treeutil import LA, cleared, is_coord, tier_caps, cap_sets
 
 ID = "C14"
 HARNESS = "C14_reactions.cpp"
@@ -17,9 +17,9 @@ EXPLANATION = ("calcMobilizerReactionForces, calcMobilizerReactionForcesUsingFre
                "origin (reactions applied at the M frame origins); the reaction on the parent at F (and at the parent origin) is minus the "
                "reaction on the child shifted from M; the at-origin form is the shifted at-M form; both calculation methods agree.")
 BOUNDS = ("tree catalogue (spec/catalogue.py) incl. Weld, plus three 3-body chains with a massless intermediate body; all built-in mobilizers "
-          "forward/reversed, quaternion/Euler; u, f, F, prescribed udot free; k free coordinates at a time (1 quick / 2 thorough; quick tier: one "
+          "forward/reversed, quaternion/Euler; u, f, F, prescribed udot free; k free coordinates at a time (1 quick / 2 thorough, up to 6 choices per base point; quick tier: one "
           "choice of free coordinate per base point plus the all-coordinates-pinned set where forward dynamics is involved, two choices in the all-prescribed mode; quick tier, multi-body trees containing Free/FreeLine/Bushing/CantileverFreeBeam/Ellipsoid with forward dynamics: coordinates pinned only), other "
-          "coordinates and mass/frame parameters pinned at exact rational base points (2 quick / 6 thorough); fallback to linear inputs only "
+          "coordinates and mass/frame parameters pinned at exact rational base points (2 quick / 4 thorough); fallback to linear inputs only "
           "when the encoder's term limit is exceeded; hinge-inertia inverses assumed to exist (division side conditions); LU pivoting "
           "path of 6-dof hinge matrices fixed by the path condition")
 NOT_COVERED = ("constraint forces (multipliers are computed by LAPACK, see C08); position/velocity-level Motions and locks (C10 covers their "
@@ -40,7 +40,7 @@ def instances(tier, seed):
     for n, spec, ml in MASSLESS:
         out.append(dict(name=n, args=[spec, "0", "0", str(ml)], mode=0))
         out.append(dict(name=n + "|base-prescribed", args=[spec, "0", "2", str(ml)], mode=2))
-    return out
+    return tier_caps(out, tier)
 
 
 HEAVY = ("Free", "FreeLine", "Bushing", "CantileverFreeBeam", "Ellipsoid")   # LU-inverted 5/6-dof hinge matrices, non-trig use of angles
@@ -49,7 +49,7 @@ HEAVY = ("Free", "FreeLine", "Bushing", "CantileverFreeBeam", "Ellipsoid")   # L
 def free_sets(inst, tr, tier, rng):
     fs = list(cat.coordinate_free_sets(inst, tr, tier, rng, always=("u", "f_", "F", "a_")))
     if tier != "quick":
-        return fs
+        return cap_sets(fs, tier)
     if inst.get("mode") == 1:
         return fs[:2]           # no hinge-matrix inverses: cheap
     # quick tier, forward dynamics involved: one free-coordinate set per base point + the set with every coordinate pinned;
